@@ -47,6 +47,55 @@ def add_collision_pattern(root, rng):
     b.add(Field("items", Arr(Base("byte"), 3), d))
 
 
+def add_api_vs_typedef_pattern(root, rng):
+    """Enum or alias named `Decode<M>` / `Json<M>` / `Encode<M>` beside message `<M>`: the C API function of the message and the
+    typedef of the enum/alias are one identifier (known finding c-api-function-vs-typedef-name)."""
+    base = "Gizmo"
+    verb = rng.choice(["Decode", "Json", "Encode"])
+    m = root.add(Message(base))
+    m.add(Field("ok", Base("bool"), 1))
+    if rng.random() < 0.5:
+        root.add(Enum(verb + base, 3, [(f"{verb.upper()}_{base.upper()}_NONE", 0), (f"{verb.upper()}_{base.upper()}_SOME", 1)]))
+    else:
+        root.add(Alias(verb + base, Base("uint", 12)))
+
+
+def api_typedef_collisions(root):
+    """C identifiers that are both an Encode/Decode/Json function of a message and the typedef of an enum or alias."""
+    out = set()
+    for g in root.all_files():
+        fns = {v + c_type_name(m) for m in messages_of(g) for v in ("Encode", "Decode", "Json")}
+        out |= {c_type_name(d) for d in iter_defs(g) if isinstance(d, (Enum, Alias)) and c_type_name(d) in fns}
+    return out
+
+
+def add_class_body_rebinding_pattern(root, rng):
+    """A field whose name the Python class body still needs afterwards: `field` (dataclasses.field builds the default of every later
+    array/message field) or the bound name of an import that a later field refers to (known finding py-class-body-name-rebound-by-field)."""
+    m = root.add(Message("Widget"))
+    imps = [i for i in root.imports if any(isinstance(d, (Enum, Message)) and d.parent is i.file for d in iter_defs(i.file))]
+    if imps and rng.random() < 0.6:
+        imp = rng.choice(imps)
+        tops = [d for d in iter_defs(imp.file) if isinstance(d, (Enum, Message)) and d.parent is imp.file and not (isinstance(d, Enum) and not d.members)]
+        if tops:
+            # written AFTER the reference (so the schema's own scoping is beyond doubt) but with the smaller field number: Python emits by number
+            m.add(Field("later", Ref(rng.choice(tops)), 2))
+            m.add(Field(imp.bound_name, Base("bool"), 1))
+            return
+    m.add(Field("field", Base("uint", 8), 1))
+    m.add(Field("tail", Arr(Base("byte"), 3), 2))
+
+
+def class_body_rebinding(root):
+    """True when some message has a field named `field` or like a bound import name of its file (see above)."""
+    for g in root.all_files():
+        names = {"field"} | {i.bound_name for i in g.imports}
+        for m in messages_of(g):
+            if any(f.name in names for f in m.fields):
+                return True
+    return False
+
+
 def add_alias_array_pattern(root, rng):
     """Alias `<N>` of an array and alias `Array<N>` of a base type: the array helper of the first and the alias helper of the
     second must not share a name."""
@@ -194,6 +243,12 @@ def worker(ctx):
         if case_id % 7 == 2:
             add_same_proto_name_imports(root, rng)
             res.count("feature:two_imports_with_the_same_proto_name")
+        if case_id % 11 == 3:
+            add_api_vs_typedef_pattern(root, rng)
+            res.count("feature:enum_or_alias_named_like_a_message_api_function")
+        if case_id % 11 == 5:
+            add_class_body_rebinding_pattern(root, rng)
+            res.count("feature:field_named_like_a_name_the_python_class_body_needs")
         top = ctx.casedir(case_id)
         wit = {"case": case_id, "shard": ctx.shard}
         try:
@@ -275,6 +330,9 @@ def worker(ctx):
                     if rc != 0:
                         err = re.search(r"error: ([^\n]*)", log)
                         key = "c-compile:" + re.sub(r"[‘'`][^’']*[’']", "<id>", err.group(1) if err else "?")[:50]
+                        q = re.search(r"[‘'`](\w+)[’'] redeclared as different kind of symbol", log)
+                        if q and q.group(1) in api_typedef_collisions(root):
+                            key = "c-api-function-vs-typedef-name"
                         res.violation(key, f"{g.basename}_bp.c ({mode}) does not compile as C99: {err.group(1) if err else log[-300:]}", {**wit, "mode": mode, "log": log[-1500:]})
                         bad = True
                         break
@@ -355,7 +413,10 @@ def worker(ctx):
                 mods = sut_py.PyModules(od, root)
             except Exception as e:
                 tb = traceback.format_exc()
-                res.violation(f"python-import:{type(e).__name__}", f"generated Python does not import: {type(e).__name__}: {str(e)[:200]}", {**wit, "traceback": tb[-1000:]})
+                key = f"python-import:{type(e).__name__}"
+                if class_body_rebinding(root) and re.search(r"object is not callable|object has no attribute", str(e)) and re.search(r", in (Widget|\w+)\n", tb):
+                    key = "py-class-body-name-rebound-by-field"
+                res.violation(key, f"generated Python does not import: {type(e).__name__}: {str(e)[:200]}", {**wit, "traceback": tb[-1000:]})
                 mods = None
             if mods is not None:
                 try:
